@@ -57,17 +57,44 @@ func timerMain(args []string) {
 	var mu sync.Mutex
 	var wg sync.WaitGroup
 	id := 0
+	type tcase struct {
+		kind              string
+		d, target, preRun time.Duration
+	}
+	var tcases []tcase
 	for _, d := range durs {
 		for ph := 0; ph < phases; ph++ {
 			for _, kind := range []string{"every", "tick"} {
-				id++
-				myid := id
 				// target phase within the period and delay before running the command
 				target := time.Duration(int64(d)*int64(ph)/int64(phases)).Round(0) + time.Duration(r.intn(int(d)/phases+1))
 				preRun := time.Duration(r.intn(int(d)*3/2 + 1))
 				if r.chance(1, 4) {
 					preRun = 0
 				}
+				tcases = append(tcases, tcase{kind, d, target, preRun})
+			}
+		}
+	}
+	// durations that are not a whole number of milliseconds (a timer armed with a rounded duration fires early)
+	for _, d := range []time.Duration{2500 * time.Microsecond, 16666666, 5999999, 999 * time.Microsecond, 33333333} {
+		for k := 0; k < 3; k++ {
+			tcases = append(tcases, tcase{"tick", d, time.Duration(r.intn(int(d))), 0}, tcase{"every", d, time.Duration(r.intn(int(d))), 0})
+		}
+	}
+	// Every created shortly before a boundary (the last 1/40 and 1/100 of the period): the boundary it aims at is the very next one
+	for _, d := range []time.Duration{100 * time.Millisecond, 200 * time.Millisecond, 400 * time.Millisecond} {
+		for _, frac := range []int64{40, 100} {
+			for k := 0; k < 2; k++ {
+				tcases = append(tcases, tcase{"every", d, d - time.Duration(int64(d)/frac), 0})
+			}
+		}
+	}
+	{
+		{
+			for _, tc := range tcases {
+				kind, d, target, preRun := tc.kind, tc.d, tc.target, tc.preRun
+				id++
+				myid := id
 				wg.Add(1)
 				go func(kind string, d, target, preRun time.Duration) {
 					defer wg.Done()
